@@ -1198,3 +1198,26 @@ Lemma pick2_hi_both b1 q1 b2 q2 : 0 <= q2 < q1 ->
 Proof. intros H. exact (conj (pick2_hi_l b1 q1 b2 q2 H) (pick2_hi_r b2 q2 b1 q1 H)). Qed.
 Lemma skip_rule f : skip_fixed false f = false /\ skip_fixed true f = negb (has_R1 f && has_R2 f).
 Proof. exact (conj (skip_fixed_no_dove f) (skip_fixed_dove f)). Qed.
+
+(* concrete instances of the hypotheses used in Props (non-vacuity) *)
+Lemma ex_tie_facts :
+  votes skip_fixed false ex_mol (0, 20) bA = votes skip_fixed false ex_mol (0, 20) bC /\
+  forallb (fun b => votes skip_fixed false ex_mol (0, 20) b <=? votes skip_fixed false ex_mol (0, 20) bA) acgt = true /\
+  frag_call skip_fixed false (nth 2 ex_mol []) (0, 20) = None /\
+  forallb (fun f => match frag_call skip_fixed false f (0, 22) with None => true | Some _ => false end) ex_mol = true /\
+  majority skip_fixed false ex_mol (0, 20) = None /\ majority skip_fixed false ex_mol (0, 21) = Some bG /\
+  specb skip_fixed false ex_mol [((0, 21), bG)] = true /\ specb skip_fixed false ex_mol [((0, 21), bG); ((0, 20), bA)] = false.
+Proof. vm_compute. repeat split. Qed.
+Lemma ex_perm_facts :
+  Permutation (rev ex_mol) ex_mol /\ mol_consensus skip_fixed false (rev ex_mol) = mol_consensus skip_fixed false ex_mol /\
+  mol_consensus skip_fixed false (ex_mol ++ rev ex_mol) = mol_consensus skip_fixed false ex_mol /\
+  mol_table skip_fixed false ex_mol [] = Ok [((0, 20), (1, 1, 0, 0, 0)); ((0, 21), (0, 0, 2, 1, 0))].
+Proof. split; [symmetry; apply Permutation_rev|]. vm_compute. repeat split. Qed.
+Lemma ex_pick_facts :
+  pick_best [Some (bA, 30); Some (bC, 30); Some (bA, 30)] = (bN, 0) /\
+  pick_best [Some (bA, 30); None; Some (bC, 37)] = (bC, 37) /\
+  pick_best [Some (bA, 0); Some (bA, 0)] = (bA, 0) /\ pick_best [None; None] = (bN, 0) /\
+  calls_nonneg [Some (bA, 30); None; Some (bC, 37)].
+Proof.
+  repeat split; try reflexivity. intros b q [H|[H|[H|[]]]]; inversion H; subst; discriminate.
+Qed.
